@@ -5,7 +5,8 @@
 namespace sim {
 namespace {
 
-struct Hist { std::vector<double> t, sz, se; bool ok = false; };
+struct Hist { std::vector<double> t, sz, se; bool ok = false; };   // one bunch
+struct HistSet { std::vector<Hist> b; bool ok = false; };
 
 struct C04 : Scenario {
     const char* id() const override { return "C04"; }
@@ -60,25 +61,45 @@ struct C04 : Scenario {
         } else if (mode == "damp_only") { c.fptype = 1; c.zoom = std::round(r.uniform(1.0, 1.3) * 100) / 100; c.rotations = std::max(1.0, std::floor(0.45 * 2.0 / (e1 * d0.steps))); }
         else if (mode == "diff_only") { c.fptype = 2; c.zoom = std::round(r.uniform(0.5, 0.9) * 100) / 100; c.rotations = std::max(3.0, std::ceil(0.5 * 2.0 / (e1 * d0.steps))); }
         else { if (r.chance(0.5)) c.fptype = 0; else c.tdamp = 0; c.zoom = std::round(r.uniform(std::max(0.6, 3.0 * delta), 1.3) * 100) / 100; c.rotations = 5; }
+        // "from any initial size ... the limit does not depend on the initial distribution": a train of bunches (every bunch has to
+        // relax, empty buckets in between), very small starts (exact zeros a few sigma out through underflow) and, for run b of a
+        // relax pair, a compact box read from a start file (exact zeros outside the box)
+        if (r.chance(0.3)) {
+            long nbk = r.range(2, 4);
+            c.currents.assign((size_t)nbk, 0.0);
+            long filled = 0;
+            for (long i = 0; i < nbk; i++) if (r.chance(0.7)) { c.currents[(size_t)i] = std::round(r.uniform(0.5e-3, 3e-3) * 1e5) / 1e5; filled++; }
+            if (filled < 2) { c.currents[0] = 1e-3; c.currents[(size_t)nbk - 1] = 2e-3; }
+        }
+        if (mode == "relax" && r.chance(0.25)) p.setd("z1", std::round(r.uniform(0.15, 0.3) * 100) / 100);
+        if (mode == "relax" && c.currents.size() == 1 && r.chance(0.25)) { p.seti("boxstart", 1); p.setd("boxw", std::round(r.uniform(0.8, 2.5) * 100) / 100); p.setd("boxh", std::round(r.uniform(0.8, 2.5) * 100) / 100); }
         c.to_plan(p);
         p.setu("entropy", r.u64());
         return p;
     }
 
-    static Hist run_one(Outcome& o, const Cfg& c, RunCtx& rc, const std::string& tag, uint64_t entropy) {
-        Hist h;
+    static HistSet run_one(Outcome& o, const Cfg& c, RunCtx& rc, const std::string& tag, uint64_t entropy) {
+        HistSet hs;
         Launch l = make_launch(c, rc.workdir, tag, entropy, 0);
         l.timeout_s = 600;
         LaunchResult r = run_launch(l);
         o.launches++; o.simsteps += r.sumi("steps_done");
-        if (!r.exited || r.code != 0) { o.set_infra("launch " + tag + " failed: " + r.describe() + " " + tail(r.err)); return h; }
+        if (!r.exited || r.code != 0) { o.set_infra("launch " + tag + " failed: " + r.describe() + " " + tail(r.err)); return hs; }
         H5Snap s = h5_read(rc.workdir + "/" + c.output);
-        if (!s.ok) { o.set_infra("unreadable results"); return h; }
-        h.t = s.values(TIME_AXIS); h.sz = s.values("/BunchLength/data"); h.se = s.values("/EnergySpread/data");
-        h.ok = h.t.size() == h.sz.size() && h.t.size() == h.se.size() && h.t.size() >= 2;
-        if (!h.ok) o.set_infra("history shapes");
+        if (!s.ok) { o.set_infra("unreadable results"); return hs; }
+        size_t nb = derive(c).nbunches;
+        if (!c.startfile.empty()) nb = 1;
+        auto t = s.values(TIME_AXIS), sz = s.values("/BunchLength/data"), se = s.values("/EnergySpread/data");
+        if (nb == 0 || sz.size() != t.size() * nb || se.size() != t.size() * nb || t.size() < 2) { o.set_infra("history shapes"); return hs; }
+        hs.b.resize(nb);
+        for (size_t b = 0; b < nb; b++) {
+            hs.b[b].t = t;
+            for (size_t i = 0; i < t.size(); i++) { hs.b[b].sz.push_back(sz[i * nb + b]); hs.b[b].se.push_back(se[i * nb + b]); }
+            hs.b[b].ok = true;
+        }
+        hs.ok = true;
         o.mixfp(r.evhash()); o.mixfp(s.digest());
-        return h;
+        return hs;
     }
 
     Outcome run(const Plan& plan, RunCtx& rc) const override {
@@ -101,8 +122,28 @@ struct C04 : Scenario {
         if (mode == "relax") {
             Cfg a = cfg, b = cfg;
             a.zoom = plan.getd("z1"); b.zoom = plan.getd("z2"); a.output = "a.h5"; b.output = "b.h5";
-            Hist ha = run_one(o, a, rc, "a", entropy); if (!ha.ok) return o;
-            Hist hb = run_one(o, b, rc, "b", entropy); if (!hb.ok) return o;
+            if (plan.geti("boxstart", 0)) {
+                // run b starts from a file: a uniform box |q| < w, |p| < h (exact zeros outside)
+                unsigned long long n = (unsigned long long)cfg.grid;
+                std::vector<float> data(n * n, 0.0f);
+                double w = plan.getd("boxw"), hh = plan.getd("boxh");
+                for (unsigned long long x = 0; x < n; x++) for (unsigned long long y = 0; y < n; y++) {
+                    double q = d.qmin + x * d.delta_q, pp = d.pmin + y * d.delta_p;
+                    if (std::fabs(q) < w && std::fabs(pp) < hh) data[x * n + y] = 1.0f;
+                }
+                if (!h5_write_f32(rc.workdir + "/box.h5", "/PhaseSpace/data", {1, n, n}, data)) { o.set_infra("cannot write start file"); return o; }
+                b.startfile = "box.h5"; b.zoom = 1;
+                o.probe("reach.compact_start_file");
+            }
+            if (a.zoom <= 0.3) o.probe("reach.start_with_exact_zero_columns");
+            HistSet hsa = run_one(o, a, rc, "a", entropy); if (!hsa.ok) return o;
+            HistSet hsb = run_one(o, b, rc, "b", entropy); if (!hsb.ok) return o;
+            if (hsa.b.size() != hsb.b.size()) { o.set_infra("bunch counts differ"); return o; }
+            if (hsa.b.size() > 1) o.probe("reach.multibunch");
+            for (size_t bi = 0; bi < hsa.b.size() && o.fails.empty(); bi++) {
+            const Hist& ha = hsa.b[bi]; const Hist& hb = hsb.b[bi];
+            const std::string ctx0 = ctx;
+            std::string ctx = ctx0 + (hsa.b.size() > 1 ? " bunch " + std::to_string(bi) + " of " + std::to_string(hsa.b.size()) : "") + (b.startfile.empty() ? "" : " (second start: uniform box from a start file)");
             size_t n = ha.t.size();
             o.checks += 2 * n;
             double za = ha.sz.back(), ea = ha.se.back(), zb = hb.sz.back(), eb_ = hb.se.back();
@@ -146,11 +187,17 @@ struct C04 : Scenario {
                 }
             }
             o.simperiods = 2 * ha.t.back();
-            o.sample = "relax devrel=" + o.hints["devrel"] + " const=" + o.hints["const"] + " z=" + fmt_g(a.zoom, 3) + "," + fmt_g(b.zoom, 3) + " -> " + fmt_g(za, 6) + "/" + fmt_g(ea, 6) + " , " + fmt_g(zb, 6) + "/" + fmt_g(eb_, 6) + ctx;
+            if (bi == 0) o.sample = "relax devrel=" + o.hints["devrel"] + " const=" + o.hints["const"] + " z=" + fmt_g(a.zoom, 3) + "," + fmt_g(b.zoom, 3) + " -> " + fmt_g(za, 6) + "/" + fmt_g(ea, 6) + " , " + fmt_g(zb, 6) + "/" + fmt_g(eb_, 6) + ctx;
+            }
             return o;
         }
         Cfg c = cfg; c.output = "v.h5";
-        Hist h = run_one(o, c, rc, "v", entropy); if (!h.ok) return o;
+        HistSet hs = run_one(o, c, rc, "v", entropy); if (!hs.ok) return o;
+        if (hs.b.size() > 1) o.probe("reach.multibunch");
+        for (size_t bi = 0; bi < hs.b.size() && o.fails.empty(); bi++) {
+        const Hist& h = hs.b[bi];
+        const std::string ctx0 = ctx;
+        std::string ctx = ctx0 + (hs.b.size() > 1 ? " bunch " + std::to_string(bi) + " of " + std::to_string(hs.b.size()) : "");
         size_t n = h.t.size();
         o.checks += n;
         o.simperiods = h.t.back();
@@ -166,7 +213,8 @@ struct C04 : Scenario {
         } else {
             for (size_t i = 1; i < n; i++) if (std::fabs(emit(i) / emit(0) - 1) > 1e-3 + 1e-3 * h.t[i] + 0.25 * (double)d.angle * (double)d.angle + 1.3 * h.t[i] * std::pow((double)d.angle, 3)) { /* a round beam is not matched to the tilted invariant ellipse of a kick-drift map; its (sz^2+sE^2)/2 beats by ~theta as the true period (2pi/mu steps) slips against the nominal one */ o.fail("C04.neither_stays_put", "no damping/diffusion: length/spread moved from " + fmt_g(h.sz[0], 6) + "/" + fmt_g(h.se[0], 6) + " to " + fmt_g(h.sz[i], 6) + "/" + fmt_g(h.se[i], 6) + " (emittance ratio " + fmt_g(emit(i) / emit(0), 7) + ") within " + fmt_g(h.t[i], 3) + " periods" + ctx); break; }
         }
-        o.sample = mode + " zoom=" + fmt_g(cfg.zoom, 3) + " emittance " + fmt_g(emit(0), 5) + " -> " + fmt_g(emit(n - 1), 5) + ctx;
+        if (bi == 0) o.sample = mode + " zoom=" + fmt_g(cfg.zoom, 3) + " emittance " + fmt_g(emit(0), 5) + " -> " + fmt_g(emit(n - 1), 5) + ctx;
+        }
         return o;
     }
 
@@ -177,6 +225,8 @@ struct C04 : Scenario {
         with([](Cfg& d) { d.linearRF = true; });
         with([](Cfg& d) { d.renorm = 0; });
         with([](Cfg& d) { d.interp = 4; });
+        with([](Cfg& d) { double f = 1e-3; for (double x : d.currents) if (x > 0) { f = x; break; } d.currents = {f}; });
+        if (p.geti("boxstart", 0)) { Plan q = p; q.erase("boxstart"); out.push_back(q); }
         return out;
     }
 };
